@@ -27,6 +27,7 @@ OpsS7 == ExtendedOps
 \* one JSON record per complete behaviour (leg R)
 EmitOnce == (st \in {"done", "err"}) =>
    PrintT(ToJson([chars |-> inp, ok |-> (st = "done"), dc |-> dc,
+                  evariant |-> (IF st = "done" THEN "" ELSE IF mode = "str" THEN "UnterminatedString" ELSE "InvalidNumber"),
                   toks |-> [k \in 1..Len(out) |-> <<out[k].k, ByteLo(out[k]), ByteHi(out[k]), TokText(out[k])>>]]))
 Terminal == st \in {"done", "err"}
 ====
